@@ -146,6 +146,8 @@ def gen_clock(rng: Any, modes: Tuple[str, ...] = ("tied",)) -> dict:
     if mode == "stepping":
         c["step"] = rng.choice([1, 1, 2, 3600])
     if mode == "jumping":
+        # a wall clock before 1970 is not a clock behaviour anybody meets: keep it positive
+        c["epoch"] = max(epoch, 10**6)
         c["jumps"] = [[rng.randrange(0, 30), rng.choice([-3600, -2, -1, 1, 2, 60, 86400])]
                       for _ in range(rng.randrange(1, 5))]
     return c
